@@ -152,6 +152,9 @@ pub fn hand_reduce(prob: &Prob, eff: &Effective) -> Prob {
 
 /// strict membership (with a relative margin) in a cone or its dual
 pub fn strictly_inside(cone: &ConeSpec, v: &[f64], dual: bool, margin: f64) -> bool {
+    if cone.dim() == 0 {
+        return true;
+    }
     let scale = norm_inf(v).max(1e-300);
     match cone {
         ConeSpec::Zero(_) => {
